@@ -64,6 +64,20 @@ def registeredChildren : List (String × String × String) :=
   ("UnboundMethodValue", "typevars", "notType"),
   ("UnpackedValue", "value", "planted")]
 
+/-- Where pyanalyze/value.py builds an `AnnotatedValue` with the raw constructor and where it goes through
+the normalising helper `annotate_value` (which flattens `Annotated[Annotated[X, m1], m2]` and de-duplicates
+metadata): (enclosing function, callee, number of calls). `flatten_values` and `unite_values` distribute the
+metadata of an annotated union over its members through the helper; the raw constructor is used by the helper
+itself, by `AnnotatedValue.substitute_typevars` (known class `annotatedSubstNotNormalised`) and `simplify`. -/
+def registeredAnnotatedSites : List (String × String × String) :=
+  [("AnnotatedValue.simplify", "AnnotatedValue", "1"),
+  ("AnnotatedValue.substitute_typevars", "AnnotatedValue", "1"),
+  ("annotate_value", "AnnotatedValue", "1"),
+  ("concrete_values_from_iterable", "annotate_value", "1"),
+  ("flatten_values", "annotate_value", "1"),
+  ("unannotate_value", "annotate_value", "1"),
+  ("unite_values", "annotate_value", "1")]
+
 /-- the rows with a given status -/
 def childrenWith (s : String) : List (String × String) :=
   (registeredChildren.filter (fun r => r.2.2 == s)).map (fun r => (r.1, r.2.1))
